@@ -416,6 +416,17 @@ func allNames() []string {
 
 var opNames = []string{"op:&", "op:=", "op:!=", "op:+", "op:-", "op:*", "op:/", "op:^", "op:<", "op:<=", "op:>", "op:>=", "op:neg"}
 
+// adHocValue: corpus values that are not pool members, derived from their name: 'text' or a decimal literal
+func adHocValue(n string) (VSpec, bool) {
+	if len(n) >= 2 && n[0] == '\'' && n[len(n)-1] == '\'' {
+		return named(n, vText(n[1:len(n)-1])), true
+	}
+	if numericText(n) {
+		return named(n, vNum(n)), true
+	}
+	return VSpec{}, false
+}
+
 func sweepTasks(r *hx.Rand, total int) []*task {
 	pool := basePool()
 	byName := map[string]VSpec{}
@@ -430,6 +441,9 @@ func sweepTasks(r *hx.Rand, total int) []*task {
 		out := make([]VSpec, len(names))
 		for i, n := range names {
 			v, ok := byName[n]
+			if !ok {
+				v, ok = adHocValue(n)
+			}
 			if !ok {
 				panic("no pool value " + n)
 			}
